@@ -25,8 +25,15 @@ Definition be_bytes (n : nat) (v : N) : bytes := rev (le_bytes n v).
 Definition u16_max : N := 65535.
 
 (* [u8; N]::deserialize : serialize.rs:221-230 *)
-Definition take_bytes (n : nat) (buf : bytes) : option (bytes * bytes) :=
-  if Nat.leb n (length buf) then Some (firstn n buf, skipn n buf) else None.
+Fixpoint take_bytes (n : nat) (buf : bytes) : option (bytes * bytes) :=
+  match n with
+  | O => Some ([], buf)
+  | S n' =>
+      match buf with
+      | [] => None
+      | x :: r => match take_bytes n' r with Some (h, t) => Some (x :: h, t) | None => None end
+      end
+  end.
 
 Definition get_le (n : nat) (buf : bytes) : option (N * bytes) :=
   match take_bytes n buf with
